@@ -368,6 +368,14 @@ pub fn run(cfg: &Config) -> i32 {
                     }
                 }
             }
+            // decimal parts that begin or end with zeros (a decimal count taken after trimming zeros on the wrong
+            // side lets "1000,005" pass for a two-decimal currency)
+            for int in ["1000", "7"] {
+                for frac in ["05", "005", "0005", "00005", "50", "500", "0050", "010", "0100", "000"] {
+                    let amount = format!("{int},{frac}");
+                    cases.push(Case { ty: ty.to_string(), ccy: ccy.to_string(), amount, class: format!("int{}:dec{}:zeros-in-decimals", int.len(), frac.len()) });
+                }
+            }
             // ordinary magnitudes with many decimals: total lengths around and beyond the limit (a length check
             // hidden behind a range or magnitude check only shows here)
             for int in ["1", "12", "99999"] {
